@@ -766,6 +766,8 @@ def run_taguse(chk, F, rid="R-TAGUSE"):
 # ------------------------------------------------------------------------------------------ R-WHOLETEXT
 TEXT_SOURCES = ("xmlTextReaderConstValue", "xmlTextReaderValue")
 SPLITTERS = ("XML_READER_TYPE_COMMENT", "XML_READER_TYPE_PROCESSING_INSTRUCTION")
+CHARACTER_NODES = ("XML_READER_TYPE_TEXT", "XML_READER_TYPE_CDATA", "XML_READER_TYPE_WHITESPACE",
+                   "XML_READER_TYPE_SIGNIFICANT_WHITESPACE")
 
 
 def run_wholetext(chk, F, rid="R-WHOLETEXT"):
@@ -784,6 +786,9 @@ def run_wholetext(chk, F, rid="R-WHOLETEXT"):
     for fn in sorted(F.functions.values(), key=lambda f: (f.get("file") or "", f.get("line") or 0)):
         if fn.get("body") is None or not (fn.get("file") or "").endswith("src/xmlreader.cpp"):
             continue
+        # file-local predicates (`is_ignorable(type)`) are read where they are called
+        from ..inline import expanded_fn as _xf
+        fn = _xf(fn, F, accept=lambda t_: bool(t_.get("static")) and not t_.get("cls"), maxdepth=2)
         loops = [x for x in walk(fn["body"]) if x.get("k") in ("while", "for", "do")]
         inside = {}
         for lp in loops:
@@ -813,7 +818,93 @@ def run_wholetext(chk, F, rid="R-WHOLETEXT"):
                    "%s:%s" % (fn["file"], c.get("l")))
     if n < 1:
         raise AnalysisBroken("%s: the XML reader does not read any node value (anchor gone)" % rid)
-    chk.analysed[rid] = {"value_reads": n, "gathering_functions": sorted(gatherers)}
+    # every node kind that carries characters of the element's text must reach the append: the positions the parser
+    # reports are offsets in the text it was given, and they are resolved against the element's real text
+    from ..inline import sites_with_conditions, strip
+    n_char = 0
+    for fn in F.functions.values():
+        if fn.get("body") is None or fn["name"] not in gatherers or not (fn.get("file") or "").endswith("src/xmlreader.cpp"):
+            continue
+        inits = {}
+        for d in walk(fn["body"]):
+            if d.get("k") == "decl":
+                for v in d.get("vars", []):
+                    if v.get("init") is not None:
+                        inits[v.get("name")] = v["init"]
+            if d.get("k") == "if" and isinstance(d.get("var"), dict) and d["var"].get("init") is not None:
+                inits[d["var"].get("name")] = d["var"]["init"]
+
+        def ev(c, T, depth=0, env=None):
+            """truth of condition c for a node of type T: True / False / None (does not depend on the type)"""
+            c = strip(c) if isinstance(c, dict) else None
+            if not isinstance(c, dict) or depth > 8:
+                return None
+            k = c.get("k")
+            if k == "bool":
+                return bool(c["v"])
+            if k == "un" and c.get("op") == "!":
+                v = ev(c["e"], T, depth + 1, env)
+                return None if v is None else not v
+            if k == "bin" and c.get("op") in ("&&", "||"):
+                a, b = ev(c["lhs"], T, depth + 1, env), ev(c["rhs"], T, depth + 1, env)
+                if c["op"] == "&&":
+                    return False if (a is False or b is False) else (True if (a and b) else None)
+                return True if (a is True or b is True) else (False if (a is False and b is False) else None)
+            if k == "bin" and c.get("op") in ("==", "!="):
+                for x, y in ((c["lhs"], c["rhs"]), (c["rhs"], c["lhs"])):
+                    x0, y0 = strip(x), strip(y)
+                    if isinstance(y0, dict) and y0.get("k") == "ref" and y0.get("dk") == "enumerator" and \
+                            str(y0.get("name", "")).startswith("XML_READER_TYPE_") and is_type_expr(x0, env):
+                        return (y0["name"] == T) == (c["op"] == "==")
+                return None
+            if k == "ref" and c.get("dk") == "local" and c.get("name") in inits and "bool" in (c.get("t") or ""):
+                return ev(inits[c["name"]], T, depth + 1, env)
+            if k == "call" and c.get("ck") in ("free", "static") and c.get("args") and any(is_type_expr(strip(a), env) for a in c["args"]):
+                for g in F.fns(c.get("fn") or ""):
+                    if g.get("body") is None or len(g["params"]) != len(c["args"]):
+                        continue
+                    env2 = {p_["name"] for p_, a in zip(g["params"], c["args"]) if is_type_expr(strip(a), env)}
+                    rets = [r for r in walk(g["body"]) if r.get("k") == "return" and r.get("e") is not None]
+                    if len(rets) == 1:
+                        return ev(rets[0]["e"], T, depth + 1, env2)
+                return None
+            return None
+
+        def is_type_expr(x, env):
+            if not isinstance(x, dict):
+                return False
+            if x.get("k") == "call" and x.get("name") in ("getNodeType", "xmlTextReaderNodeType"):
+                return True
+            if x.get("k") == "ref" and env and x.get("name") in env:
+                return True
+            if x.get("k") == "ref" and x.get("dk") == "local" and x.get("name") in inits:
+                i0 = strip(inits[x["name"]])
+                return isinstance(i0, dict) and i0.get("k") == "call" and i0.get("name") in ("getNodeType", "xmlTextReaderNodeType")
+            return False
+
+        def is_append(x):
+            return x.get("k") == "call" and x.get("ck") == "op" and x.get("op") == "+=" and "string" in (x.get("cls") or x.get("fn") or short(x.get("recv") or {}) or "")
+        appends = [(site, conds) for site, conds in sites_with_conditions(fn["body"], is_append)]
+        if not appends:
+            appends = [(site, conds) for site, conds in sites_with_conditions(
+                fn["body"], lambda x: x.get("k") == "call" and x.get("name") in ("append", "operator+=", "push_back"))]
+        if not appends:
+            chk.note("%s: no append of a node value to the gathered text found in %s - the character-node clause is not "
+                     "decided" % (rid, fn["q"]))
+            continue
+        for T in CHARACTER_NODES:
+            n_char += 1
+            reach = False
+            for site, conds in appends:
+                vals = [ev(c, T) if t else (None if ev(c, T) is None else not ev(c, T)) for c, t in conds]
+                if not any(v is False for v in vals):
+                    reach = True
+            chk.ob(rid, "%s|%s appended" % (fn["name"], T), reach,
+                   "%s does not append the value of %s nodes to the text it gathers: such nodes hold characters of the "
+                   "element's text (blank filler next to a comment), so the text given to the parser is shorter than the "
+                   "text of the element and every diagnostic after it is reported too early - on another line, or with "
+                   "columns that do not cover the culprit" % (fn["q"], T), "%s:%s" % (fn["file"], fn["line"]))
+    chk.analysed[rid] = {"value_reads": n, "gathering_functions": sorted(gatherers), "character_node_obligations": n_char}
 
 
 # ------------------------------------------------------------------------------------------ R-LOOPEND
